@@ -10,8 +10,8 @@
 EXTENDS Integers, Sequences, FiniteSets, TLC, SequencesExt
 L(s) == [k |-> "lit", s |-> s]
 R(n) == [k |-> "ref", s |-> n]
-RECURSIVE PrintT(_)
-PrintT(t) == IF t = <<>> THEN "" ELSE (IF t[1].k = "lit" THEN t[1].s ELSE "${" \o t[1].s \o "}") \o PrintT(Tail(t))
+RECURSIVE TplText(_)
+TplText(t) == IF t = <<>> THEN "" ELSE (IF t[1].k = "lit" THEN t[1].s ELSE "${" \o t[1].s \o "}") \o TplText(Tail(t))
 \* dictionary: function name -> template.  Interpolation with a cycle guard; unresolved placeholders stay.
 RECURSIVE InterpT(_, _, _)
 InterpT(t, dict, resolving) ==
@@ -74,8 +74,8 @@ FirstNonEmpty(chain, f) == LET c == SelectSeq(chain, LAMBDA m : (IF f = "g" THEN
 Dict(lin) ==
   LET chain == Chain(lin, 1) user == PropsOf(chain)
       g == FirstNonEmpty(chain, "g") v == FirstNonEmpty(chain, "v")
-      pg == IF lin[1].parent = 0 THEN "" ELSE lin[lin[1].parent].gdecl
-      pv == IF lin[1].parent = 0 THEN "" ELSE lin[lin[1].parent].vdecl
+      pg == IF lin[1].parent = 0 THEN "" ELSE lin[lin[1].parent].g
+      pv == IF lin[1].parent = 0 THEN "" ELSE lin[lin[1].parent].v
       builtin == [n \in {"project.groupId", "pom.groupId", "project.version", "pom.version", "project.parent.groupId", "pom.parent.groupId",
                          "project.parent.version", "pom.parent.version", "groupId", "version", "parent.groupId", "parent.version"} |->
                     IF n \in {"project.groupId", "pom.groupId", "groupId"} THEN g
@@ -115,7 +115,7 @@ Inject(d, mg) == LET hit == {i \in 1..Len(mg) : DepKey(mg[i]) = DepKey(d)} IN
        [d EXCEPT !.v = IF d.v = <<>> THEN m.v ELSE d.v, !.scope = IF d.scope = "" THEN m.scope ELSE d.scope, !.excl = IF d.excl = <<>> THEN m.excl ELSE d.excl]
 EffDeps(lin, boms) == LET dict == Dict(lin) mg == EffMgmt(lin, boms) ds == InheritDeps(Chain(lin, 1), <<>>) IN
   [i \in 1..Len(ds) |-> Inject(InterpDep(ds[i], dict), mg)]
-Out(d) == [g |-> d.g, a |-> d.a, v |-> PrintT(d.v), typ |-> d.typ, cls |-> d.cls, scope |-> d.scope, opt |-> d.opt, excl |-> d.excl]
+Out(d) == [g |-> d.g, a |-> d.a, v |-> TplText(d.v), typ |-> IF d.typ = "" THEN "jar" ELSE d.typ, cls |-> d.cls, scope |-> d.scope, opt |-> d.opt, excl |-> d.excl]
 OutSeq(ds) == [i \in 1..Len(ds) |-> Out(ds[i])]
 \* Maven fails the whole build on a property cycle reachable from a used field: such lineages are out of domain
 HasCycle(lin) == LET dict == Dict(lin) IN
